@@ -879,7 +879,9 @@ impl File {
                 Stamp::from_metadata(&metadata)?,
             )),
             Err(e) => {
-                if e.kind() == io::ErrorKind::NotFound {
+                // A file below something that is not a directory (any more) does not
+                // exist either.
+                if is_gone(&e) {
                     Ok((false, Stamp::MISSING))
                 } else {
                     Err(RedoError::opaque_error(e))
@@ -1468,6 +1470,13 @@ pub(crate) fn warn_override(name: &RedoPath) {
     log_warn!("{} - you modified it; skipping\n", name);
 }
 
+/// Reports whether a stat-like call failed because the file does not exist: there
+/// is no such name, or a leading part of the path is not a directory (any more).
+fn is_gone(e: &io::Error) -> bool {
+    e.kind() == io::ErrorKind::NotFound
+        || e.raw_os_error() == Some(nix::errno::Errno::ENOTDIR as i32)
+}
+
 /**
  * Like `Path::canonicalize()`, but don't follow symlinks for the last element.
  *
@@ -1508,7 +1517,7 @@ where
     } else {
         let mut buf = match dname.canonicalize() {
             Ok(path) => path,
-            Err(e) if e.kind() == io::ErrorKind::NotFound => {
+            Err(e) if is_gone(&e) => {
                 let dname = if dname.is_absolute() {
                     dname
                 } else {
@@ -1528,7 +1537,7 @@ where
                             resolved = Some(path);
                             break;
                         }
-                        Err(e) if e.kind() == io::ErrorKind::NotFound => {}
+                        Err(e) if is_gone(&e) => {}
                         Err(e) => return Err(e),
                     }
                 }
